@@ -172,6 +172,22 @@ def run_case(ctx, rng, graph, gkind, i):
             d0 = float(vm.mahalanobis_distance(seen.mean(0)))
             if not (abs(d0) <= 1e-5 * max(1.0, nrm)):
                 ctx.fail("distance_at_the_mean_is_not_zero", cls="GMRFVectorModel", mech="after_increment", got=d0)
+    # a model that was not built to keep learning refuses an increment (documented) - and is afterwards the model it was
+    if i % 4 == 1:
+        m_ = models[bool(i % 8 == 1)]
+        d_before = np.asarray(m_.mahalanobis_distance(q), dtype=float)
+        try:
+            m_.increment(gmrfmon.make_data(rng, 4, V, k) * unit)
+            ctx.fail("increment_accepted_by_a_model_built_without_incremental", cls="GMRFVectorModel")
+        except ValueError:
+            pass
+        ctx.tap("refused_increment_leaves_the_model_alone", "calls"); ctx.tap("refused_increment_leaves_the_model_alone", "checked")
+        try:
+            d_after = np.asarray(m_.mahalanobis_distance(q), dtype=float)
+            if _amax(d_after - d_before) > 0:
+                ctx.fail("refused_increment_changed_the_model", cls="GMRFVectorModel", mech="distances")
+        except Exception as ex:
+            ctx.fail("refused_increment_changed_the_model", cls="GMRFVectorModel", mech="query_raises_" + type(ex).__name__)
     # the PCA of the model has orthonormal components (only meaningful for a positive definite precision)
     if not iso and trunc is None and dtype == np.float64 and rng.random() < 0.3:
         try:
@@ -184,6 +200,13 @@ def run_case(ctx, rng, graph, gkind, i):
     # object-backed model agrees with the vector model
     if i % 5 == 0 and k in (2, 3) and dtype == np.float64:
         samples = [ms.PointCloud(row.reshape(V, k)) for row in X]
+        if variant == "plain" and rng.random() < 0.4:
+            # the first annotation of the set was stored as integer pixel positions (an integer-typed point cloud)
+            X = X.copy()
+            X[0] = np.round(X[0])
+            samples[0] = ms.PointCloud(X[0].reshape(V, k).astype(np.int64))
+            Qs = gmrfmon.dense(GMRFVectorModel(X.copy(), graph, mode=mode, n_components=trunc, dtype=dtype, sparse=True, bias=bias).precision)
+            nrm = max(1e-300, float(np.abs(Qs).max()))
         om = GMRFModel(samples, graph, mode=mode, n_components=trunc, sparse=True, bias=bias)
         if _amax(gmrfmon.dense(om.precision) - Qs) > 1e-9 * nrm:
             ctx.fail("object_backed_model_differs_from_vector_model", cls="GMRFModel")
